@@ -5,8 +5,8 @@
 # prints one summary line per change; cleans up the worktree (keeps the shared target dir /tmp/vs-target).
 ID=$1; shift
 for N in "$@"; do
-  D=/tmp/seed/$ID/out/change$N
-  WT=/tmp/vs-$ID-$N
+  D=${SEEDROOT:-/tmp/seed}/$ID/out/change$N
+  WT=/tmp/vs${ROUND:-}-$ID-$N
   git -C /repo worktree remove --force $WT >/dev/null 2>&1
   git -C /repo worktree add --detach $WT HEAD >/dev/null 2>&1 || { echo "$ID/$N worktree failed"; continue; }
   cd $WT
